@@ -1,5 +1,5 @@
 SPECIFICATION Spec
-CONSTANTS Retry = 2 MaxFaults = 5 NMsgE = 3 NMsgH = 2
+CONSTANTS Retry = 2 MaxFaults = 7 NMsgE = 3 NMsgH = 3
 CONSTANT NBlocks <- NBlocksDef
 INVARIANTS TypeOK ExactlyOnce AtMostOnce InOrder RetryBounded MasterFirst
 PROPERTY AllReturn
